@@ -442,6 +442,15 @@ pub fn read_dir_state(dir: &Path, cfg: &Cfg) -> Result<BTreeMap<KsIdx, Map>, Str
 /// recovery are recoverable again and supersede what was recovered).
 pub fn write_after_recovery(dir: &Path, cfg: &Cfg, recovered: &BTreeMap<KsIdx, Map>, salt: u64) -> Result<BTreeMap<KsIdx, Map>, String> {
     let mut inst = crate::inst::Instance::open_with(dir, cfg, cfg.journal_lz4, 0)?;
+    // a directory recovered with many sealed memtables makes writes wait for flushes: the SEQ
+    // stall hook must step THIS instance's queue
+    struct Restore(Option<fjall::Database>);
+    impl Drop for Restore {
+        fn drop(&mut self) {
+            crate::hooks::swap_seq_db(self.0.take());
+        }
+    }
+    let _restore = Restore(crate::hooks::swap_seq_db(Some(inst.db.clone())));
     let mut expect = recovered.clone();
     let mut handles = vec![];
     for (i, m) in recovered {
@@ -474,6 +483,7 @@ pub fn write_after_recovery(dir: &Path, cfg: &Cfg, recovered: &BTreeMap<KsIdx, M
         b.commit().map_err(|e| format!("batch after recovery: {e:?}"))?;
     }
     drop(handles);
+    drop(_restore);
     drop(inst);
     Ok(expect)
 }
